@@ -108,7 +108,14 @@ func c09RandCfg(r *rand.Rand, idx int) c09Cfg {
 		}
 		return l
 	}
-	switch r.Intn(4) {
+	switch r.Intn(5) {
+	case 4:
+		// explicit resources, access left to the documented nil default
+		cfg.AccNil = true
+		cfg.Resources = pick()
+		if cfg.Resources == nil {
+			cfg.Resources = []string{}
+		}
 	case 0, 1:
 		cfg.ResNil, cfg.AccNil = true, true
 	case 2:
